@@ -4,7 +4,7 @@ CONSTANTS
   Deep = 1
   MaxDepth = 1
   ShallowDepth = 1
-  Fams <- OnlyGlobal
+  Fams <- OnlyGlobalCore
   Mirror = FALSE
 VIEW noact
 INVARIANT NestingRule
